@@ -12,11 +12,11 @@ use serde_json::json;
 
 pub fn meta() -> Meta {
     Meta {
-        rule: "write side: packets with OPT {udp, version, options} x rcode in the named set x 0..3 other additional records are serialised (plain and \
+        rule: "write side: packets (queries and responses) with OPT {udp, version, options} x rcode in the named set x 0..3 other additional records are serialised (plain and \
 compressed) and walked by the independent decoder: exactly one TYPE-41 record, in the additional section, counted once in ARCOUNT, owner = single 00, \
 CLASS = udp size, TTL bytes = [rcode>>4, version, *, *], header RCODE bits = rcode & 15, RDATA = concatenated code/len/value triples. read side: \
 reference-encoded third-party messages with the OPT record at every position of the additional section, all 256 extended-RCODE x 16 header-RCODE \
-combinations, version 0..255, boundary udp sizes, random DO/Z bits and option lists must parse with the OPT removed from additional_records, opt() \
+combinations (each once with QR set and once with QR clear; random opcode and flag bits elsewhere), version 0..255, boundary udp sizes, random DO/Z bits and option lists must parse with the OPT removed from additional_records, opt() \
 exposing udp/version/options and rcode() equal to the recombined 12-bit code (named codes; Reserved otherwise). Anchored by a hand-assembled RFC-layout \
 capture. non-trivial = every case carries an OPT; distinct = hash of the case",
         assumptions: &["the DO/Z flag bits of the OPT TTL are not exposed by the library and not constrained"],
@@ -41,7 +41,10 @@ pub fn write_side(ctx: &mut Ctx, idx: u64) {
     if idx % 7 == 0 {
         e.udp = *g.r.pick(&[0u16, 1, 512, 1232, 4096, 0x7FFF, 0x8000, 0x8001, 65535]);
     }
-    let mut p = PktM { id: g.r.int(16) as u16, flags: 0x8000, rcode: rc, edns: Some(e.clone()), ..Default::default() };
+    // queries carry EDNS (and, through a proxy or a test tool, a 12-bit code) as well: the QR bit is not part of the rule
+    let flags = match idx % 4 { 0 => 0x8000, 1 => 0, 2 => 0x0100, _ => 0x8000 | (g.r.int(16) as u16 & 0x07B0) };
+    ctx.add(if flags & 0x8000 != 0 { "written_with_qr_set" } else { "written_with_qr_clear" }, 1);
+    let mut p = PktM { id: g.r.int(16) as u16, flags, rcode: rc, edns: Some(e.clone()), ..Default::default() };
     if g.r.bool() {
         let q = g.question();
         p.qs.push(q);
@@ -128,9 +131,10 @@ pub fn write_side(ctx: &mut Ctx, idx: u64) {
     }
 }
 
-fn read_case(ctx: &mut Ctx, family: &str, idx: u64, ext: u8, low: u16, version: u8, udp: u16, zflags: u16,
+fn read_case(ctx: &mut Ctx, family: &str, idx: u64, hdr: u16, ext: u8, low: u16, version: u8, udp: u16, zflags: u16,
              opts: Vec<(u16, Vec<u8>)>, others: Vec<RecSem>, pos: usize, r: &mut Rng) {
-    let mut m = MsgM { id: idx as u16, flags: 0x8000 | low, ..Default::default() };
+    ctx.add(if hdr & 0x8000 != 0 { "read_with_qr_set" } else { "read_with_qr_clear" }, 1);
+    let mut m = MsgM { id: idx as u16, flags: (hdr & 0xFFB0) | low, ..Default::default() };
     for o in &others {
         m.secs[2].push(o.to_wire());
     }
@@ -197,9 +201,10 @@ pub fn run(ctx: &mut Ctx) {
     }
     // read side: full sweep ext x low, versions, positions
     if ctx.family_active("sweep") {
-        for ext in 0..256u64 {
+        for qe in 0..512u64 {
+            let (ext, hdr) = (qe % 256, if qe < 256 { 0x8000u16 } else { 0x0100 });
             for low in 0..16u64 {
-                let idx = ext * 16 + low;
+                let idx = qe * 16 + low;
                 if !ctx.take("sweep", idx) {
                     continue;
                 }
@@ -207,7 +212,7 @@ pub fn run(ctx: &mut Ctx) {
                 let version = ((ext * 7 + low) % 256) as u8;
                 let udp = [0u16, 512, 1232, 4096, 65535][(idx % 5) as usize];
                 let z = if idx % 2 == 0 { 0x8000 } else { r.int(16) as u16 };
-                read_case(ctx, "sweep", idx, ext as u8, low as u16, version, udp, z, vec![], vec![], 0, &mut r);
+                read_case(ctx, "sweep", idx, hdr, ext as u8, low as u16, version, udp, z, vec![], vec![], 0, &mut r);
             }
         }
         for version in 0..256u64 {
@@ -216,7 +221,7 @@ pub fn run(ctx: &mut Ctx) {
                 continue;
             }
             let mut r = ctx.rng("sweep", idx);
-            read_case(ctx, "sweep", idx, (version % 2) as u8, 0, version as u8, 1232, 0, vec![(3, vec![])], vec![], 0, &mut r);
+            read_case(ctx, "sweep", idx, if version % 3 == 0 { 0 } else { 0x8400 }, (version % 2) as u8, 0, version as u8, 1232, 0, vec![(3, vec![])], vec![], 0, &mut r);
         }
     }
     let nr = if ctx.slow_tool { 30 } else { 12_000 * scale };
@@ -241,7 +246,8 @@ pub fn run(ctx: &mut Ctx) {
         let z = g.r.int(16) as u16;
         let mut r2 = Rng::for_case(ctx.seed, "c09-read-plan", idx);
         ctx.add(&format!("opt_at_position_{}_of_{}", pos, n), 1);
-        read_case(ctx, "read", idx, ext, low, e.version, e.udp, z, e.opts, others, pos, &mut r2);
+        let hdr = match r2.below(3) { 0 => 0x8000, 1 => r2.int(16) as u16 & 0x7FB0, _ => r2.int(16) as u16 };
+        read_case(ctx, "read", idx, hdr, ext, low, e.version, e.udp, z, e.opts, others, pos, &mut r2);
     }
     // hand-assembled captures
     if ctx.family_active("capture") && ctx.take("capture", 0) {
